@@ -1,6 +1,8 @@
 import GridVerif.Model.Proto
 import GridVerif.Model.Elem
 import GridVerif.Model.AtomInterp
+import GridVerif.Model.Harmonics
+import GridVerif.Gen.AtomInterp
 
 namespace GridVerif.Driver.C09
 open GridVerif.Proto GridVerif.AtomInterp
@@ -20,6 +22,21 @@ open GridVerif.Proto GridVerif.AtomInterp
   C09.assemble   nrows deriv dsph onlyrad <fmat sph M×3> <fmat sNu rows×M> <fmat s0> <fmat y> <fmat dyt> <fmat dyp>
                                                -> ok <vec shape> <fvec data> | value-error
   C09.mol_combine k <fvec out_0> … <fvec out_{k-1}> -> ok <fvec>
+
+  Round 3 — the *generated* definitions of `Gen/AtomInterp.lean` (the hand-model ops above stay):
+  C09.gen_integrate / C09.gen_average / C09.gen_components   same arguments and answers as the ops without `gen_`
+  C09.gen_grid_angles   same arguments as C09.grid_angles, through `Gen.AtomInterp.basisAngles`
+  C09.gen_convert <3 floats grid centre> <vec shape> <fvec flat points> <0 | 1 cx cy cz>
+                                               -> ok <fmat M×3 (r, θ, φ)> | value-error
+                        (`Gen.AtomInterp.convertCartesianToSpherical g (some points) center`)
+  C09.gen_interp_low <3 floats centre> <vec degrees> <fvec knots> nrows <fmat coefficients nrows × 4(n-1): scipy's
+                        `CubicSpline.c[k, i]` at column `k (n-1) + i`> <vec shape> <fvec flat points> deriv dsph onlyrad
+                                               -> ok <vec shape> <fvec data> | value-error
+                        (`Gen.AtomInterp.interpolateLow`; harmonics and their derivatives from `Model/Harmonics.lean`)
+  C09.gen_mol_low k <vec shape_0> <fvec out_0> …  -> ok <vec shape> <fvec> | index-error   (`Gen.AtomInterp.molInterpolateLow`)
+  C09.gen_defaults                              -> ok deriv dsph onlyrad deriv dsph onlyrads   (atomic, molecular signature)
+  C09.gen_warns dsph onlyrad                    -> ok 0|1
+  C09.reshape <vec shape> <ints dims>           -> ok <vec shape> | value-error   (primitive `pyReshape`)
 -/
 
 def nan : Float := 0.0 / 0.0
@@ -83,8 +100,190 @@ def pGrid (toks : List String) : Option (AGrid Float × Nat × List String) :=
 def showOut : Except Err (List Nat × List Float) → String
   | .ok (shape, data) => s!"ok {sNats shape} {sFloats data}"
   | .error .valueError => "value-error"
+  | .error .indexError => "index-error"
+
+/-- scipy's `PPoly` evaluation of a cubic spline: knots `x` (`n ≥ 2`), `c k i` = coefficient of `(t - x_i)^(3-k)` on interval `i`,
+derivative of order `nu`, extrapolation by the first / last piece. -/
+def ppoly (x : Array Float) (c : Nat → Nat → Float) (t : Float) (nu : Nat) : Float :=
+  let n := x.size
+  let i := (List.range (n - 1)).foldl (fun acc k => if x.getD k nan ≤ t then k else acc) 0
+  let d := t - x.getD i nan
+  let c0 := c 0 i
+  let c1 := c 1 i
+  let c2 := c 2 i
+  let c3 := c 3 i
+  match nu with
+  | 0 => ((c0 * d + c1) * d + c2) * d + c3
+  | 1 => (3.0 * c0 * d + 2.0 * c1) * d + c2
+  | 2 => 6.0 * c0 * d + 2.0 * c1
+  | 3 => 6.0 * c0
+  | _ => 0.0
+
+def sameBits (a b : Float) : Bool := a.toBits == b.toBits
+
+def showSph : Except Err (Nat × (Nat → Float × Float × Float)) → String
+  | .ok (n, sp) => "ok " ++ sMat sFloat ((List.range n).map fun j => [(sp j).1, (sp j).2.1, (sp j).2.2])
+  | .error .valueError => "value-error"
+  | .error .indexError => "index-error"
+
+/-- a grid of which only the centre, the degrees (for `l_max`) are known -/
+def bareGrid (c : Vec3 Float) (deg : List Nat) : AGrid Float :=
+  let dA := deg.toArray
+  let z : Vec3 Float := ⟨nan, nan, nan⟩
+  { nShells := deg.length, r := fun _ => nan, w := fun _ => nan, deg := tabNA dA, idx := fun _ => 0, wts := fun _ => nan,
+    pts := fun _ => z, center := c, regenW := fun _ _ => nan, regenPts := fun _ _ => z }
 
 def rowsOf (m : List (List Float)) : Option (List (Vec3 Float)) := m.mapM toVec3
+
+def handleGen : List String → Option String
+  | "C09.gen_integrate" :: rest => do
+    let (g, npts, rest) ← pGrid rest
+    let (f, rest) ← pVec pFloat rest
+    if rest ≠ [] ∨ f.length ≠ npts then none else
+    let fA := f.toArray
+    let ff := tabA fA
+    let a := Gen.AtomInterp.integrateAngular g ff
+    pure s!"ok {sFloats ((List.range g.nShells).map a)} {sFloat (reweightedSum g a)} {sFloat (gridIntegral g ff)}"
+  | "C09.gen_average" :: rest => do
+    let (g, npts, rest) ← pGrid rest
+    let (f, rest) ← pVec pFloat rest
+    if rest ≠ [] ∨ f.length ≠ npts then none else
+    let fA := f.toArray
+    let a := Gen.AtomInterp.averageValues g (tabA fA)
+    let vals := (List.range g.nShells).map a
+    let valsA := vals.toArray
+    let av := tabA valsA
+    let back := sumTo g.nShells (fun i => (((4 : Nat) : Float) * Elem.pi * (g.r i * g.r i) * av i) * g.w i)
+    pure s!"ok {sFloats vals} {sFloat back}"
+  | "C09.gen_components" :: rest => do
+    let (g, npts, rest) ← pGrid rest
+    let (bas, rest) ← pMat pFloat rest
+    let (f, rest) ← pVec pFloat rest
+    if rest ≠ [] ∨ f.length ≠ npts then none else
+    let rows := nRows (Gen.AtomInterp.basisDegree g.lMax)
+    if bas.length ≠ rows then pure s!"shape-mismatch {rows}" else
+    if bas.any (fun r => r.length ≠ npts) then none else
+    if Gen.AtomInterp.splinesRejects g f.length then pure "value-error" else
+    let basA := arr2 bas
+    let fA := f.toArray
+    let c := Gen.AtomInterp.radialComponents g (tab2A basA) (tabA fA)
+    pure s!"ok {g.lMax} {sMat sFloat ((List.range rows).map fun row => (List.range g.nShells).map (c row))}"
+  | "C09.gen_grid_angles" :: n :: rest => do
+    let n ← pNat n
+    let (r, rest) ← pVec pFloat rest
+    let (idx, rest) ← pVec pNat rest
+    let (c, rest) ← p3 rest
+    let (pm, rest) ← pMat pFloat rest
+    let (rm, rest) ← pMat pFloat rest
+    if rest ≠ [] ∨ r.length ≠ n ∨ idx.length ≠ n + 1 then none else
+    let npts := idx.getLast?.getD 0
+    let ps ← rowsOf pm
+    let rs ← rowsOf rm
+    if ps.length ≠ npts ∨ rs.length ≠ npts then none else
+    let idxA := idx.toArray
+    let idxf := tabNA idxA
+    let bad : Vec3 Float := ⟨nan, nan, nan⟩
+    let pa := ps.toArray
+    let ra := rs.toArray
+    let rA := r.toArray
+    let g : AGrid Float :=
+      { nShells := n, r := tabA rA, w := fun _ => nan, deg := fun _ => 0, idx := idxf, wts := fun _ => nan,
+        pts := fun j => pa.getD j bad, center := c, regenW := fun _ _ => nan,
+        regenPts := fun i k => ra.getD (idxf i + k) bad }
+    match Gen.AtomInterp.basisAngles g with
+    | .ok ang => pure ("ok " ++ sMat sFloat ((List.range npts).map fun j => [(ang j).1, (ang j).2]))
+    | .error _ => pure "value-error"
+  | "C09.gen_convert" :: rest => do
+    let (c, rest) ← p3 rest
+    let (shape, rest) ← pVec pNat rest
+    let (flat, rest) ← pVec pFloat rest
+    let (center, rest) ← (match rest with
+      | "0" :: rest => some (none, rest)
+      | "1" :: rest => do
+        let (cc, rest) ← p3 rest
+        pure (some cc.tup, rest)
+      | _ => none : Option (Option (Float × Float × Float) × List String))
+    if rest ≠ [] ∨ flat.length ≠ shape.foldl (· * ·) 1 then none else
+    let fA := flat.toArray
+    let arr : NdArr Float := ⟨shape, tabA fA⟩
+    pure (showSph (Gen.AtomInterp.convertCartesianToSpherical (bareGrid c []) (some arr) center))
+  | "C09.gen_interp_low" :: rest => do
+    let (c, rest) ← p3 rest
+    let (deg, rest) ← pVec pNat rest
+    let (x, rest) ← pVec pFloat rest
+    match rest with
+    | nrows :: rest => do
+      let nrows ← pNat nrows
+      let (cm, rest) ← pMat pFloat rest
+      let (shape, rest) ← pVec pNat rest
+      let (flat, rest) ← pVec pFloat rest
+      match rest with
+      | [deriv, dsph, orad] => do
+        let deriv ← pNat deriv
+        let dsph ← pBool dsph
+        let orad ← pBool orad
+        let n := x.length
+        if n < 2 ∨ cm.length ≠ nrows ∨ cm.any (fun r => r.length ≠ 4 * (n - 1)) ∨ flat.length ≠ shape.foldl (· * ·) 1 then none else
+        let xA := x.toArray
+        let cA := arr2 cm
+        let ct := tab2A cA
+        let splines : Nat → Float → Nat → Float := fun row t nu => ppoly xA (fun k i => ct row (k * (n - 1) + i)) t nu
+        let g := bareGrid c deg
+        let fA := flat.toArray
+        let arr : NdArr Float := ⟨shape, tabA fA⟩
+        let L := g.lMax / 2
+        -- the harmonics at the angles the generated code computes (same routine, same floats), one table per point
+        let tabs : Array (Float × Float × List Float × List Float × List Float) :=
+          match Gen.AtomInterp.convertCartesianToSpherical g (some arr) none with
+          | .ok (m, sp) => ((List.range m).map fun j =>
+              let th := (sp j).2.1
+              let ph := (sp j).2.2
+              let d := Harmonics.dYlm L th ph
+              (th, ph, Harmonics.ylmCode L th ph, d.1, d.2)).toArray
+          | .error _ => #[]
+        let find : Float → Float → Option (Float × Float × List Float × List Float × List Float) := fun th ph =>
+          tabs.find? fun e => sameBits e.1 th && sameBits e.2.1 ph
+        let Yl : Nat → Nat → Float → Float → Float := fun d i th ph =>
+          if d ≠ L then nan else match find th ph with
+            | some e => e.2.2.1.getD i nan
+            | none => nan
+        let dYl : Nat → Nat → Nat → Float → Float → Float := fun d a i th ph =>
+          if d ≠ L then nan else match find th ph with
+            | some e => if a = 0 then e.2.2.2.1.getD i nan else if a = 1 then e.2.2.2.2.getD i nan else nan
+            | none => nan
+        pure (showOut (Gen.AtomInterp.interpolateLow g nrows splines Yl dYl arr deriv dsph orad))
+      | _ => none
+    | _ => none
+  | "C09.gen_mol_low" :: k :: rest => do
+    let k ← pNat k
+    let rec go : Nat → List String → Option (List (List Nat × List Float))
+      | 0, [] => some []
+      | 0, _ => none
+      | k + 1, toks => do
+        let (sh, rest) ← pVec pNat toks
+        let (v, rest) ← pVec pFloat rest
+        let tl ← go k rest
+        pure ((sh, v) :: tl)
+    let outs ← go k rest
+    let funcs : List (Unit → Nat → Bool → Bool → Except Err (List Nat × List Float)) := outs.map fun o => fun _ _ _ _ => .ok o
+    pure (showOut (Gen.AtomInterp.molInterpolateLow funcs () 0 false false))
+  | ["C09.gen_defaults"] =>
+    let a := (Gen.AtomInterp.interpolateLowDefaults : Nat × Bool × Bool)
+    let m := (Gen.AtomInterp.molInterpolateLowDefaults : Nat × Bool × Bool)
+    let b : Bool → String := fun x => if x then "1" else "0"
+    pure s!"ok {a.1} {b a.2.1} {b a.2.2} {m.1} {b m.2.1} {b m.2.2}"
+  | ["C09.gen_warns", dsph, orad] => do
+    let dsph ← pBool dsph
+    let orad ← pBool orad
+    pure (if Gen.AtomInterp.warnsFlagIgnored dsph orad then "ok 1" else "ok 0")
+  | "C09.reshape" :: rest => do
+    let (shape, rest) ← pVec pNat rest
+    let (dims, rest) ← pVec pInt rest
+    if rest ≠ [] then none else
+    match pyReshape (⟨shape, fun _ => nan⟩ : NdArr Float) dims with
+    | some a => pure s!"ok {sNats a.shape}"
+    | none => pure "value-error"
+  | _ => none
 
 def handle : List String → Option String
   | "C09.integrate" :: rest => do
@@ -192,6 +391,6 @@ def handle : List String → Option String
     if k = 0 then none else
     let oa := outs.toArray
     pure (showOut (molCombine k fun A => .ok ([], oa.getD A [])))
-  | _ => none
+  | toks => handleGen toks
 
 end GridVerif.Driver.C09
